@@ -169,7 +169,7 @@ theorem emits_flushDestroy (m) : Emits (fun s => flushDestroy s m) := by
   split
   · split
     · rename_i q _
-      exact ⟨_, Emits.comp (emits_updMod m (fun md => { md with pipe := some [] })) (Emits.foldl destroyMsg emits_destroyMsg q), rfl⟩
+      exact ⟨_, Emits.comp (emits_updMod m (fun md => { md with pipe := some [], pipeSkip := 0 })) (Emits.foldl destroyMsg emits_destroyMsg q), rfl⟩
     · exact ⟨_, Emits.id, rfl⟩
   · exact ⟨_, Emits.id, rfl⟩
 
